@@ -1,7 +1,7 @@
 (* Property C16 — silent skip vs DDLParserError.  Statements only; proofs are in Proofs/. *)
 From Coq Require Import String List ZArith NArith PArith Bool.
 From SDP Require Import Base PyStr LR LRProofs Lexer Actions Parse.
-From SDP Require Seq SeqProofs Entity EntityProofs Table TableProofs TableItemProofs Alter AlterProofs AlterKeyProofs TypeDom TypeDomProofs.
+From SDP Require Seq SeqProofs Entity EntityProofs Table TableProofs TableItemProofs Alter AlterProofs AlterKeyProofs TypeDom TypeDomProofs TypeObj TypeObjProofs.
 Import ListNotations.
 
 (* For EVERY table set, token list (any length): if the loud parser (silent=False) does not raise,
@@ -82,3 +82,8 @@ Theorem C16_type_domain_loud_is_silent : forall d norm, TypeDom.wf norm d = true
   parse_lexemes norm false (TypeDom.lexemes d) = Ok (Some (TypeDom.denote norm d)).
 Proof. intros d norm H. rewrite !(TypeDomProofs.typedom_parse d norm _ H). split; reflexivity. Qed.
 Print Assumptions C16_type_domain_loud_is_silent.
+Theorem C16_object_type_loud_is_silent : forall o norm, TypeObj.wf norm o = true ->
+  parse_lexemes norm false (TypeObj.lexemes o) = parse_lexemes norm true (TypeObj.lexemes o) /\
+  parse_lexemes norm false (TypeObj.lexemes o) = Ok (Some (TypeObj.denote norm o)).
+Proof. intros o norm H. rewrite !(TypeObjProofs.typeobj_parse o norm _ H). split; reflexivity. Qed.
+Print Assumptions C16_object_type_loud_is_silent.
